@@ -11,6 +11,10 @@ while a:
     elif x == "--all": ids = sorted(d for d in os.listdir("/verif/seeded") if os.path.isdir("/verif/seeded/" + d))
     else: ids.append(x)
 REPO = os.environ.get("VERIF_REPO", "/repo")
+BUILD = os.environ.get("VERIF_BUILD") or "/verif/build"
+# SEEDRUN_FAST=1: stop a check at the first run that reports a violation, and give it a generous deadline (several
+# instances may share the machine; a seed must not count as missed because a deadline cut the exploration short)
+FAST = "VERIF_STOP_AT_FIRST_VIOLATION=1 VERIF_DEADLINE_S=900" if os.environ.get("SEEDRUN_FAST") else ""
 respath = "/verif/seeded/RESULTS.json"
 res = json.load(open(respath)) if os.path.exists(respath) else {}
 def sh(c, **k): return subprocess.run(c, shell=True, stdout=subprocess.PIPE, stderr=subprocess.STDOUT, text=True, **k)
@@ -32,10 +36,16 @@ for sid in ids:
         if p not in CK.CHECKS:
             print(sid, p, "no check yet"); continue
         t0 = time.time()
-        r = sh("VERIF_EVIDENCE_DIR=/verif/build/seed-evidence VERIF_TIER=%s /verif/bin/check %s" % (tier, p))
+        r = sh("VERIF_EVIDENCE_DIR=%s/seed-evidence VERIF_TIER=%s %s /verif/bin/check %s" % (BUILD, tier, FAST, p))
         viol = [l for l in r.stdout.splitlines() if l.startswith("VIOLATION")]
         rules = [l.strip() for l in r.stdout.splitlines() if l.strip().startswith("rule=")]
         res.setdefault(sid, {})[p + ":" + tier] = dict(detected=bool(viol) and r.returncode == 1, exit=r.returncode, first=rules[:2], wall=round(time.time() - t0, 1))
         print(sid, p, tier, "DETECTED" if viol and r.returncode == 1 else "missed (exit %d)" % r.returncode, rules[:1], "%.0fs" % (time.time() - t0))
     sh("git -C %s checkout -- . && git -C %s clean -fdq src" % (REPO, REPO))
-    json.dump(res, open(respath, "w"), indent=1, sort_keys=True)
+    # several instances may be writing: merge under a lock
+    import fcntl
+    with open(respath + ".lock", "w") as lk:
+        fcntl.flock(lk, fcntl.LOCK_EX)
+        cur = json.load(open(respath)) if os.path.exists(respath) else {}
+        cur.setdefault(sid, {}).update(res.get(sid, {}))
+        json.dump(cur, open(respath, "w"), indent=1, sort_keys=True)
